@@ -195,17 +195,18 @@ func appendEvents(path string, events []Event) error {
 		return err
 	}
 	defer file.Close()
+	// Encode every line first and hand them to the kernel in one write: a process killed
+	// between two writes would otherwise leave a command half recorded (e.g. claimed but todo).
+	var buf []byte
 	for _, event := range events {
 		data, err := json.Marshal(event)
 		if err != nil {
 			return err
 		}
-		line := append(data, '\n')
-		if err := writeAll(file, line); err != nil {
-			return err
-		}
+		buf = append(buf, data...)
+		buf = append(buf, '\n')
 	}
-	return nil
+	return writeAll(file, buf)
 }
 
 func writeEventsFile(path string, events []Event) error {
